@@ -61,6 +61,26 @@ def op_combined_features(job):
     return out
 
 
+def op_combined_large(job):
+    """A frame with very many distinct joint values (built here from the seed): the interaction feature must
+    separate all of them (C10 allows only 64-bit hash collisions).  job: rows, seed, args."""
+    import random
+    rng = random.Random(job['seed'])
+    n = job['rows']
+    user = [str(v) for v in rng.sample(range(10 ** 7), n)]            # digits-only ids, all distinct
+    site = [f's{rng.randrange(7)}' for _ in range(n)]
+    half = [user[i // 2] for i in range(n)]                           # every id twice
+    df = pd.DataFrame({'user': user, 'site': site, 'half': half, 'label': [str(i % 2) for i in range(n)]})
+    args = L.make_args(**job.get('args', {}))
+    L.reset_globals()
+    res = CR.compute_combined_features(df, args, L.Pbar(), False)
+    out = {}
+    for c in res.columns[4:]:
+        names = c.split(' AND ')
+        out[c] = [int(res[c].nunique()), int(len(set(zip(*[df[x] for x in names]))))]
+    return out
+
+
 OPS = {k[3:]: v for k, v in list(globals().items()) if k.startswith('op_')}
 
 
